@@ -695,3 +695,7 @@ seed('c15-phs-chosen-once-per-call', 'C15', [(PLDC, "            while (!foundSa
 seed('c20-spherical-engine-by-value', 'C20', [(RNC, "using variate_generator_t = boost::variate_generator<std::mt19937 *, spherical_dist_t>;", "using variate_generator_t = boost::variate_generator<std::mt19937, spherical_dist_t>;"), (RNC, "std::make_shared<variate_generator_t>(generatorPtr_, *dimVector_.at(dim).first);", "std::make_shared<variate_generator_t>(*generatorPtr_, *dimVector_.at(dim).first);")], 'R20f')
 seed('c17-better-goal-double-snap-swaps', 'C17', [(PSC, "            unsigned int startIndex = start - dists.begin();\n            unsigned int endIndex = end - dists.begin();\n\n            // Snap the random point to the nearest vertex, if within the threshold\n            if (t - (*start) < threshold)  // snap to the starting waypoint\n                endIndex = startIndex;\n            if ((*end) - t < threshold)  // snap to the ending waypoint\n                startIndex = endIndex;", "            const bool snapToStart = t - (*start) < threshold;\n            const bool snapToEnd = (*end) - t < threshold;\n            unsigned int startIndex = (snapToEnd ? end : start) - dists.begin();\n            unsigned int endIndex = (snapToStart ? start : end) - dists.begin();")], 'R17j')
 seed('c17-n-better-goal-snap-else-if', 'C17', [(PSC, "            if (t - (*start) < threshold)  // snap to the starting waypoint\n                endIndex = startIndex;\n            if ((*end) - t < threshold)  // snap to the ending waypoint\n                startIndex = endIndex;", "            if (t - (*start) < threshold)  // snap to the starting waypoint\n                endIndex = startIndex;\n            else if ((*end) - t < threshold)  // snap to the ending waypoint\n                startIndex = endIndex;")], None)
+MWH = 'src/ompl/base/objectives/MechanicalWorkOptimizationObjective.h'
+MWC = 'src/ompl/base/objectives/src/MechanicalWorkOptimizationObjective.cpp'
+seed('c04-mechanical-work-claims-symmetry', 'C04', [(MWH, "            bool isSymmetric() const override\n            {\n                return false;\n            }\n", "")], 'R04s')
+seed('c04-n-mechanical-work-operands-commuted', 'C04', [(MWC, "return Cost(positiveCostAccrued + pathLengthWeight_ * si_->distance(s1, s2));", "return Cost(si_->distance(s1, s2) * pathLengthWeight_ + positiveCostAccrued);")], None)
